@@ -59,6 +59,19 @@ def one(name):
         res["check_quick_violations"] = viol[:4]
         res["check_quick_first_detail"] = [l.strip() for l in out.splitlines() if "kind=" in l][:3]
         res["detected_quick"] = rc == 1 and bool(viol)
+        # a change may break its property through a unit another property's check drives
+        # (meta.json["also"]): record those outcomes too
+        try:
+            also = json.load(open(os.path.join(sd, "meta.json"))).get("also", [])
+        except Exception:
+            also = []
+        for other in also:
+            rc2, out2 = sh([VERIF + "/check", other, "--tier", "quick"], cwd=VERIF, env=env2,
+                           timeout=3000)
+            v2 = [l for l in out2.splitlines() if l.startswith("VIOLATION")]
+            res.setdefault("also", {})[other] = {"rc": rc2, "violations": v2[:3]}
+            if rc2 == 1 and v2 and not res["detected_quick"]:
+                res["detected_by_other"] = other
     finally:
         sh(["git", "-C", REPO, "worktree", "remove", "--force", d])
     res["valid_seed"] = (res.get("demo_on_clean_rc") == 0 and res.get("applies")
@@ -82,7 +95,8 @@ def main():
             rows.append(r)
             print("%-9s base=%s clean=%s applies=%s suite=%r mutated=%s valid=%s detected=%s %s" % (
                 r["name"], r.get("base"), r.get("demo_on_clean_rc"), r.get("applies"), r.get("suite_with_patch", "")[:22],
-                r.get("demo_with_patch_rc"), r.get("valid_seed"), r.get("detected_quick"),
+                r.get("demo_with_patch_rc"), r.get("valid_seed"),
+            r.get("detected_quick") or r.get("detected_by_other"),
                 (r.get("check_quick_violations") or [""])[0][:90]), flush=True)
     mpath = os.path.join(VERIF, "seeded", "MATRIX.json")
     old = {}
